@@ -34,12 +34,20 @@ def leafData : FNode → Bytes
 structure Walker where
   root : FNode
   stack : List (FNode × Nat) := []
+  /-- fetch oracle: whether the next `FetchChild` calls (DAG service / context) fail; `[]` = all succeed -/
+  fails : List Bool := []
 
 /-- `fetchChild`: `none` = ErrDownNoChild -/
 def Walker.fetchChild (w : Walker) : Option FNode :=
   match w.stack with
   | [] => some w.root
   | (n, i) :: _ => ((children n)[i]?).map (·.1)
+
+/-- does the `FetchChild` of this `down` return an error? (the root is in memory: never) -/
+def Walker.fetchFails (w : Walker) : Bool := !w.stack.isEmpty && w.fails.headD false
+
+/-- consume one oracle entry for a real `FetchChild` call -/
+def Walker.popFail (w : Walker) : Walker := if w.stack.isEmpty then w else { w with fails := w.fails.tail }
 
 /-- `extendPath` -/
 def Walker.extend (w : Walker) (c : FNode) : Walker := { w with stack := (c, 0) :: w.stack }
@@ -60,6 +68,7 @@ def Walker.nextChild (w : Walker) : Walker × Bool :=
 
 inductive IterRes where
   | paused | endOfDag | outOfFuel
+  | fetchErr      -- `down` returned the error of FetchChild (node not found, context cancelled, …)
   deriving DecidableEq, Repr
 
 /-- `Walker.Iterate(visitor)`; `down = true` is the first inner loop (`down` until ErrDownNoChild), `false` the
@@ -70,8 +79,10 @@ def iterate {V : Type} (visit : V → FNode → V × Bool) : Nat → Bool → Wa
     match w.fetchChild with
     | none => iterate visit f false w v
     | some c =>
-      let r := visit v c
-      if r.2 then (w.extend c, r.1, .paused) else iterate visit f true (w.extend c) r.1
+      if w.fetchFails then (w.popFail, v, .fetchErr)        -- nothing moved: the path is extended after the fetch
+      else
+        let r := visit v c
+        if r.2 then (w.popFail.extend c, r.1, .paused) else iterate visit f true (w.popFail.extend c) r.1
   | f + 1, false, w, v =>
     let x := w.nextChild
     if x.2 then iterate visit f true x.1 v
@@ -80,16 +91,22 @@ def iterate {V : Type} (visit : V → FNode → V × Bool) : Nat → Bool → Wa
       | none => (x.1, v, .endOfDag)
       | some w' => iterate visit f false w' v
 
+inductive SeekRes where
+  | done | outOfFuel | fetchErr
+  deriving DecidableEq, Repr
+
 /-- `Walker.Seek(visitor)`: `down` until ErrDownNoChild; the visitor may move the active child index.
-Returns `true` in the last component when the fuel ran out (never: `wseek_fuel_ok`). -/
-def wseek {V : Type} (visit : Walker → V → Walker × V) : Nat → Walker → V → Walker × V × Bool
-  | 0, w, v => (w, v, true)
+`outOfFuel` never happens (`seek_spec`). -/
+def wseek {V : Type} (visit : Walker → V → Walker × V) : Nat → Walker → V → Walker × V × SeekRes
+  | 0, w, v => (w, v, .outOfFuel)
   | f + 1, w, v =>
     match w.fetchChild with
-    | none => (w, v, false)
+    | none => (w, v, .done)
     | some c =>
-      let r := visit (w.extend c) v
-      wseek visit f r.1 r.2
+      if w.fetchFails then (w.popFail, v, .fetchErr)
+      else
+        let r := visit (w.popFail.extend c) v
+        wseek visit f r.1 r.2
 
 /-! ### termination measures (used as fuel) -/
 
@@ -122,6 +139,9 @@ structure Reader where
   offset : Nat := 0
 
 def newReader (root : FNode) : Reader := { w := { root := root }, size := size root }
+
+/-- a reader whose DAG service fails as the oracle says -/
+def newReaderF (root : FNode) (fails : List Bool) : Reader := { w := { root := root, fails := fails }, size := size root }
 
 /-- state of the visitor closure of CtxReadFull / WriteTo -/
 structure RV where
@@ -168,7 +188,8 @@ def Reader.readGen (r : Reader) (need : Option Nat) : Reader × Bytes × Err :=
       match x.2.2 with
       | .endOfDag => if need.isSome then .eof else .nil       -- WriteTo maps EndOfDag to nil
       | .paused => .nil
-      | .outOfFuel => .err)
+      | .outOfFuel => .err
+      | .fetchErr => .err)
 
 /-- `CtxReadFull(ctx, out)` / `Read(out)` with `len(out) = k` -/
 def Reader.read (r : Reader) (k : Nat) : Reader × Bytes × Err := r.readGen (some k)
@@ -210,11 +231,14 @@ def Reader.seekStart (r : Reader) (off : Int) : Reader × Int × Err :=
   if off < 0 then (r, r.offset, .err)
   else if off = r.offset then (r, off, .nil)
   else
-    let r0 : Reader := { r with cur := none, offset := 0, w := { root := r.w.root } }   -- resetPosition
+    let r0 : Reader := { r with cur := none, offset := 0, w := { root := r.w.root, fails := r.w.fails } }   -- resetPosition
     if off = 0 then (r0, 0, .nil)
     else
       let x := wseek seekVisit (height r.w.root + 2) r0.w (off.toNat, none)
-      ({ r0 with w := x.1, cur := x.2.1.2, offset := off.toNat }, off, .nil)
+      match x.2.2 with
+      | .done => ({ r0 with w := x.1, cur := x.2.1.2, offset := off.toNat }, off, .nil)
+      -- AFTER the `fix:` commit: resetPosition() again before returning the error
+      | _ => ({ r0 with w := { root := r.w.root, fails := x.1.fails } }, 0, .err)
 
 /-- `Seek(offset, whence)` -/
 def Reader.seek (r : Reader) (off : Int) (whence : Nat) : Reader × Int × Err :=
@@ -281,6 +305,24 @@ the same, except that a zero-length read may or may not signal EOF — never bef
 (io.Reader allows both; bytes.Reader says EOF exactly at the end). -/
 def agrees (op : Op) (pos len : Nat) (mo so : Out) : Prop :=
   mo = so ∨ (∃ e, op = .read 0 ∧ mo = { so with err := e } ∧ (e = .nil ∨ (e = .eof ∧ len ≤ pos)))
+
+/-- what a call may answer when a fetch failed during it: reads deliver a (possibly shorter) correct prefix and
+advance by it; a failed seek leaves the reader at the start of the file -/
+def faulty (op : Op) (s : Spec) (mo : Out) (s' : Spec) : Prop :=
+  mo.err = .err ∧
+  match op with
+  | .read k => mo.bytes = (s.content.drop s.pos).take mo.bytes.length ∧ mo.bytes.length ≤ k ∧
+      mo.off = mo.bytes.length ∧ s' = { s with pos := s.pos + mo.bytes.length }
+  | .writeTo => mo.bytes = (s.content.drop s.pos).take mo.bytes.length ∧
+      mo.off = mo.bytes.length ∧ s' = { s with pos := s.pos + mo.bytes.length }
+  | .seek _ _ => mo.bytes = [] ∧ mo.off = 0 ∧ s' = { s with pos := 0 }
+
+def Spec.runAgreesF (s : Spec) : List Op → List Out → Prop
+  | [], [] => True
+  | op :: ops, o :: os =>
+    (agrees op s.pos s.content.length o (s.step op).2 ∧ Spec.runAgreesF (s.step op).1 ops os) ∨
+    (∃ s', faulty op s o s' ∧ Spec.runAgreesF s' ops os)
+  | _, _ => False
 
 def Spec.runAgrees (s : Spec) : List Op → List Out → Prop
   | [], [] => True
